@@ -84,12 +84,30 @@ def cases(draw):
     return g
 
 
+@st.composite
+def big_lobbies(draw):
+    """beyond the 2..8 teams the properties' quantifiers name: free-for-all lobbies of 9..40 teams (exploration only; the code accepts them)"""
+    cfg = draw(gen.configs(gammas=["default", "inv_k", "one"]))
+    n = draw(st.one_of(st.integers(9, 40), st.sampled_from([16, 31, 32, 33, 40])))
+    sizes = [draw(st.sampled_from([1, 1, 1, 2])) for _ in range(n)]
+    teams, regime, info = draw(gen.team_values(cfg, sizes, regimes=["generic", "near_equal", "equal_sums", "identical"]))
+    n = len(teams)
+    classes = draw(gen.weak_orders(n, shapes_=("free", "none", "onetie")))
+    frag, enc = draw(gen.encodings(classes, kinds=["int", "float", "scores"]))
+    g = {"cfg": cfg, "teams": teams, "call": dict(frag), "classes": classes, "meta": {"regime": regime, "enc": enc, **info}}
+    g["player_perms"] = [list(draw(st.permutations(list(range(len(t)))))) for t in teams]
+    g["team_perms"] = [list(draw(st.permutations(list(range(n))))) for _ in range(6)]
+    return g
+
+
 PROPERTY = Property(
     pid="C04",
     clauses=[
         Clause(name="permutation-equivariance", strategy=cases(), check=check_c04, quick=1500, thorough=30000,
                rule="one game; all n! team permutations for n <= 5 (24 drawn ones above), each combined with a drawn permutation of the players of every team; "
                     "partial pairing: only permutations keeping tied teams in order; non-trivial = n >= 3 and at least one non-identity permutation compared"),
+        Clause(name="large-lobbies", strategy=big_lobbies(), check=check_c04, quick=160, thorough=3000,
+               rule="exploration beyond the stated 2..8 teams: lobbies of 9..40 teams (sizes 1-2), 6 drawn team permutations each; non-trivial as above"),
     ],
     rule="generated game x (exhaustive n! for n<=5 | 24 drawn) team permutations x drawn player permutations; per-player agreement with the unpermuted call "
          "within the numerical budget of DESIGN.md 4.4; non-trivial = n >= 3; distinct by SHA-1",
